@@ -1125,6 +1125,14 @@ def _opxz(lay, xl):
     return {'phi': phi, 'xx': xx}, (lambda a: dadi.Integration.one_pop_X(a['phi'], a['xx'], 0, nu=1.7, gamma=-0.8, h=0.3, beta=1.5, alpha=2.0, theta0=1.3))
 
 
+@reg('one_pop_X_allfr', 'Integration.one_pop_X', integrator=True)
+def _opxf(lay, xl):
+    import dadi
+    xx = lay1(grid('A', 10), xl)
+    phi = layn(phi_fix(1, 10), lay)
+    return {'phi': phi, 'xx': xx}, (lambda a: dadi.Integration.one_pop_X(a['phi'], a['xx'], 0.004, nu=1.7, gamma=-0.8, h=0.3, beta=1.5, alpha=2.0, frozen=True))
+
+
 # ---- PhiManip / Spectrum / Numerics / Misc: degenerate arguments --------------------------------------------------------
 _mk_phim('phi_2D_to_3D_admix_f0', 'phi_2D_to_3D_admix', 2, 6, lambda PM, a: PM.phi_2D_to_3D_admix(a['phi'], 0, a['xx'], a['xx'], a['xx']))
 _mk_phim('phi_2D_to_3D_admix_f1', 'phi_2D_to_3D_admix', 2, 6, lambda PM, a: PM.phi_2D_to_3D_admix(a['phi'], 1.0, a['xx'], a['xx'], a['xx']))
